@@ -79,7 +79,7 @@ def run(ck, F):
         sub = F.lib.body(callee)
         if sub is not None and sub.get("mir") and callee.startswith("model::helpers_content"):
             SB = M.Body(sub)
-            if any("reqwest::" in (M.Body.callee_decl(x) or "") for _, x in SB.calls()):
+            if any("reqwest::" in (M.Body.callee_decl(x) or "") for _, x in SB.calls()) and not _is_status_gate(F, sub):
                 ck.undecided("R1", f"reqwest-in-callee:{callee}", sp(B, bb),
                              f"{callee} performs reqwest calls of its own; inter-procedural request counting is not established", fn=short)
     post = H.one(posts)
@@ -205,6 +205,14 @@ def run(ck, F):
                 ck.undecided("R4", f"return-call:{d}", sp(B, i), f"the function returns the result of {d} directly; not analysed", fn=short)
     ck.floor("R3", "Ok return sites", len(ok_blocks), 1)
     gates = B.calls_to("reqwest::Response::error_for_status_ref", "reqwest::Response::error_for_status")
+    # a private helper of the same module that is nothing but a status gate on its parameter counts as the gate
+    for hbb, ht in B.calls():
+        callee = M.Body.callee(ht) or ""
+        hb = F.lib.body(callee)
+        if hb is None or not hb.get("mir") or not callee.startswith("model::helpers_content") or hb.get("closure"):
+            continue
+        if _is_status_gate(F, hb):
+            gates.append((hbb, ht))
     gate_conts = []
     for bb, t in gates:
         flow = M.result_flow(B, bb, t)
@@ -255,6 +263,31 @@ def run(ck, F):
                      f"{M.Body.callee_decl(t)} in the exchange function: a failed step can be turned into a value or a panic", fn=short)
     if not bad:
         ck.ok("R4", "no-defaulting", fb["span"], "no unwrap_or*/ok()/default()/unwrap on the exchange path", fn=short)
+
+
+def _is_status_gate(F, hb):
+    """`fn h(resp: &Response, ..) -> Result<..>`: a propagated error_for_status[_ref] on the parameter dominates every Ok return,
+    and the function performs no other reqwest call."""
+    HB = M.Body(hb)
+    inner = HB.calls_to("reqwest::Response::error_for_status_ref", "reqwest::Response::error_for_status")
+    if len(inner) != 1:
+        return False
+    ibb, it = inner[0]
+    src = M.trace(HB, it["args"][0], M.IDENTITY_CALLS)
+    if not (src and all(o.kind == "arg" for o in src)):
+        return False
+    if {k for k, _ in M.result_flow(HB, ibb, it)} - {"propagated", "returned"}:
+        return False
+    others = [M.Body.callee_decl(t) for _, t in HB.calls() if "reqwest::" in (M.Body.callee_decl(t) or "") and (M.Body.callee_decl(t) or "") != M.Body.callee_decl(it)]
+    if others:
+        return False
+    cont = M.success_continuation(HB, ibb, it)
+    for i in sorted(HB.reach):
+        for st in HB.blocks[i]["stmts"]:
+            if st["k"] == "assign" and st["p"]["l"] == 0 and st["rv"]["k"] == "aggregate" and st["rv"].get("variant") == "Ok":
+                if cont is None or not HB.dominates(cont, i):
+                    return False
+    return True
 
 
 def _await_aware_cont(B, bb, t):
